@@ -62,7 +62,7 @@ _REF_CACHE = {}
 _REF_SCRIPT = r"""
 import json, sys, os, tempfile, shutil
 from pathlib import Path
-sys.path.insert(0, '/repo')
+sys.path.insert(0, os.environ.get('VERIF_REPO', '/repo'))
 import logging; logging.disable(logging.CRITICAL)
 try:
     from loguru import logger; logger.remove()
@@ -99,7 +99,7 @@ def fresh_reference(files, config, how, order=None, hashseed="0"):
     if key not in _REF_CACHE:
         p = subprocess.run(["/verif/.venv/bin/python", "-c", _REF_SCRIPT], input=json.dumps(
             {"files": files, "config": config, "how": how, "order": order}), capture_output=True, text=True,
-            env=dict(os.environ, PYTHONPATH="/repo", PYTHONHASHSEED=hashseed), timeout=300)
+            env=dict(os.environ, PYTHONPATH=os.environ.get("VERIF_REPO", "/repo"), PYTHONHASHSEED=hashseed), timeout=300)
         if p.returncode != 0:
             raise RuntimeError("reference run failed: " + p.stderr[-500:])
         _REF_CACHE[key] = Counter(tuple(x) for x in json.loads(p.stdout.strip().splitlines()[-1]))
